@@ -344,7 +344,7 @@ struct ElemOracle {
         }
     }
 
-    Miss must_cover(const PolyIndex& pi) const {
+    Miss must_cover(const PolyIndex& pi, int rim_stride = 1) const {
         Miss m;
         int n = (int)S.size();
         auto test = [&](V q, int sec, double u, double r, double hw, const char* where) {
@@ -359,9 +359,11 @@ struct ElemOracle {
             for (int k = s.klo; k <= s.khi; k++) {
                 double hw = s.hw[k], rm = hw - g;
                 if (rm <= 0) continue;
-                bool joint = (k <= 40 && i > 0) || (k >= N - 40 && i + 1 < n) || (s.ulo > 0 && k <= s.klo + 40) || (s.uhi < 1 && k >= s.khi - 40);  // within 1% of a joint
+                const int J1 = N / 100;
+                bool joint = (k <= J1 && i > 0) || (k >= N - J1 && i + 1 < n) || (s.ulo > 0 && k <= s.klo + J1) || (s.uhi < 1 && k >= s.khi - J1);  // within 1% of a joint
                 const double f[] = {1, -1, 0, 0.5, -0.5};
-                int nf = (joint || k % 4 == 0) ? 5 : 2;  // the rims at every parameter, the interior at every fourth
+                if (!joint && k % rim_stride) continue;
+                int nf = (joint || k % 4 == 0) ? 5 : 2;  // the rims at every (rim_stride-th) parameter, the interior at every fourth
                 double u = (double)k / N;
                 for (int j = 0; j < nf; j++) {
                     if (f[j] > 0 && (u < s.slo[0] || u > s.shi[0])) continue;  // beyond the corner of the left edges
